@@ -9,6 +9,7 @@
   driver predicts "one recv of everything available per round".
 -/
 import Mhd.Model.UpgDaemon
+import Mhd.Model.UpgTls
 import Driver.Common
 open Mhd.Upg Driver
 
@@ -33,6 +34,7 @@ structure DS where
   noDate : Bool := false           -- MHD_USE_SUPPRESS_DATE_NO_CLOCK
   printed : List (Nat × Nat) := []      -- per connection: number of log entries already printed
   sawUpgrade : List Nat := []           -- connections whose `upgrade` event has been printed
+  tls : Option Mhd.UpgTls.St := none    -- engine `upgtls`: the forwarding handle under test
 
 def pat (rid off : Nat) : UInt8 := UInt8.ofNat (97 + (rid * 7 + off) % 26)
 
@@ -234,7 +236,103 @@ def doRound (s : DS) : DS :=
   let (sched, hints) := mkSched s
   { s with d := step s.d (.round sched), hints := hints }
 
+/-! ### engine `upgtls`: the forwarding layer of TLS-upgraded connections (harness/h_upgtls.c) -/
+
+namespace Tls
+open Mhd.UpgTls
+
+def parseRes (v : String) : Option IoRes :=
+  if v.startsWith "ok:" then (v.drop 3).toString.toNat?.map IoRes.ok
+  else if v == "again" then some .again else if v == "intr" then some .intr
+  else if v == "eof" then some .eof else if v == "fatal" then some .fatal else none
+
+def celiOf (n : Nat) : Celi := ⟨n % 2 == 1, (n / 2) % 2 == 1, (n / 4) % 2 == 1⟩
+def bitsOf (c : Celi) : Nat := (if c.rd then 1 else 0) + (if c.wr then 2 else 0) + (if c.err then 4 else 0)
+
+def ioChar : Io → Char
+  | .tlsRecv => 'R' | .pairRecv => 'r' | .tlsSend => 'S' | .pairSend => 's'
+
+structure Visit where
+  lv : Bool := false
+  r : Nat := 0
+  p : Nat := 0
+  sh : Bool := false
+  env : Env := {}
+
+def parseVisit (ws : List String) : Option Visit :=
+  ws.foldlM (init := ({} : Visit)) fun a w =>
+    match kvOf w "r" with
+    | some v => v.toNat?.map fun n => { a with r := n }
+    | none =>
+    match kvOf w "p" with
+    | some v => v.toNat?.map fun n => { a with p := n }
+    | none =>
+    match kvOf w "lv" with
+    | some v => some { a with lv := v == "1" }
+    | none =>
+    match kvOf w "sh" with
+    | some v => some { a with sh := v == "1" }
+    | none =>
+    match kvOf w "pend" with
+    | some v => some { a with env := { a.env with tlsPending := v == "1" } }
+    | none =>
+    match kvOf w "tr" with
+    | some v => (parseRes v).map fun x => { a with env := { a.env with tlsRecv := x } }
+    | none =>
+    match kvOf w "pr" with
+    | some v => (parseRes v).map fun x => { a with env := { a.env with pairRecv := x } }
+    | none =>
+    match kvOf w "ts" with
+    | some v => (parseRes v).map fun x => { a with env := { a.env with tlsSend := x } }
+    | none =>
+    match kvOf w "ps" with
+    | some v => (parseRes v).map fun x => { a with env := { a.env with pairSend := x } }
+    | none => none
+
+def showSt (before s : Mhd.UpgTls.St) : String :=
+  let io := String.ofList ((s.io.drop before.io.length).map ioChar)
+  let eof : Int := if s.wasClosed then -1 else if s.pairShut then 1 else 0
+  s!"st inU={s.inBuf.length} inS={s.inSize} outU={s.outBuf.length} outS={s.outSize} wc={if s.wasClosed then 1 else 0} " ++
+  s!"cr={if s.cleanReady then 1 else 0} rem={bitsOf s.remote} pair={bitsOf s.pair} trr={if s.tlsReadReady then 1 else 0} " ++
+  s!"pend={if s.pending then 1 else 0} io={if io.isEmpty then "-" else io} in={hexOfBytes s.inBuf} out={hexOfBytes s.outBuf} " ++
+  s!"app={hexOfBytes (s.toApp.drop before.toApp.length)} cli={hexOfBytes (s.toClient.drop before.toClient.length)} eof={eof}"
+
+/-- one script line of the engine; `none` = not an operation of this engine -/
+def stepLine (t : Option Mhd.UpgTls.St) (ws : List String) : Option (Option Mhd.UpgTls.St × List String) :=
+  match ws with
+  | "init" :: rest =>
+    let cap := (rest.findSome? fun w => (kvOf w "cap").bind (·.toNat?)).getD 16
+    let tpc := rest.any fun w => kvOf w "tpc" == some "1"
+    if cap == 0 then some (t, ["bad-op"]) else
+    some (some (Mhd.UpgTls.St.init cap Mhd.Gen.Upg.ssizeMax Mhd.Gen.Upg.sendMax tpc),
+          [s!"ok ssize_max={Mhd.Gen.Upg.ssizeMax} send_max={Mhd.Gen.Upg.sendMax}"])
+  | ["csend", h] =>
+    match t, bytesOfHex h with
+    | some s, some bs => some (some (Mhd.UpgTls.step s (.clientSend bs)), ["ok"])
+    | _, _ => some (t, ["bad-op"])
+  | ["asend", h] =>
+    match t, bytesOfHex h with
+    | some s, some bs => some (some (Mhd.UpgTls.step s (.appSend bs)), [s!"asent n={if s.wasClosed || s.pairShut then 0 else bs.length}"])
+    | _, _ => some (t, ["bad-op"])
+  | ["aclose"] =>
+    match t with
+    | some s => some (some (step s .appClose), [s!"aclose {if s.wasClosed then 0 else 1}"])
+    | none => some (t, ["bad-op"])
+  | "visit" :: rest =>
+    match t, parseVisit rest with
+    | some s, some v =>
+      let s0 := { s with pending := false }
+      let s1 := Mhd.UpgTls.step s0 (if v.sh then .stopVisit v.lv (celiOf v.r, celiOf v.p) v.env else .visit v.lv (celiOf v.r, celiOf v.p) v.env)
+      some (some s1, [match s1.fault with | some f => "fault " ++ f | none => showSt s0 s1])
+    | _, _ => some (t, ["bad-op"])
+  | _ => none
+
+end Tls
+
 def stepLine0 (s : DS) (ws : List String) : DS × List String :=
+  match Tls.stepLine s.tls ws with
+  | some (t, out) => ({ s with tls := t }, out)
+  | none =>
   match ws with
   | "case" :: rest => ({ d := Daemon.init (mkBase false []) (behOf []) }, [s!"case {(rest.head?).getD "-"}"])
   | "cfg" :: rest =>
